@@ -21,7 +21,7 @@ def main(argv):
     if argv[0] == "kind":
         # kind <samekind|firstuse> <kind> [index-for-seed]
         jobs = [(10 ** 6 + int(argv[3]) if len(argv) > 3 else 10 ** 6,
-                 (argv[1], argv[2], argv[1] == "firstuse"))]
+                 (argv[1], argv[2], argv[1] == "firstuse" or len(argv) > 4))]
     elif argv[0] == "soak":
         jobs = [(3 * 10 ** 6 + k, ("soak", argv[1], False)) for k in range(int(argv[2]))]
     elif argv[0] == "scn":
